@@ -703,3 +703,97 @@ def c19_g(ctx):
                       .format(m.name, c.func.attr), fn=m, node=c)
     if n < 2:
         ctx.undecided('expected two pool collections in RomcPosterior, found {}'.format(n))
+
+
+@obligation('C19-h', 'T8 T13', 'the posterior counts region membership exactly when its distance '
+            'functions are fitted models: `surrogate_used` is decided by the same flags that '
+            'choose the distance functions', floor=3,
+            necessary='fitted models extrapolate below the cut-off outside their own region; '
+                      'without the region test those points are counted')
+def c19_h(ctx):
+    romc = ctx.cls(ROMC + ':ROMC')
+    dp = ctx.own_method(romc, '_define_posterior')
+    ex = ctx.ex(dp)
+    # the flags that choose which function goes into `objectives`
+    apps = [c for c in ctx.calls(dp) if isinstance(c.func, ast.Attribute) and
+            c.func.attr == 'append' and isinstance(c.func.value, ast.Name)]
+    rp = ctx.calls(dp, 'RomcPosterior(*_)')
+    if len(rp) != 1:
+        raise AnchorMissing('RomcPosterior construction in _define_posterior')
+    rinit = ctx.cls(RP).lookup('__init__')
+    pnames = [a.arg for a in rinit.node.args.args][1:]
+
+    def _arg(name):
+        i = pnames.index(name)
+        if i < len(rp[0].args):
+            return rp[0].args[i]
+        for kw in rp[0].keywords:
+            if kw.arg == name:
+                return kw.value
+        raise AnchorMissing('RomcPosterior(... {} ...) in _define_posterior'.format(name))
+    a_obj, a_flag = _arg('objectives'), _arg('surrogate_used')
+    obj_name = a_obj.id if isinstance(a_obj, ast.Name) else None
+    chooser = {}
+    for c in apps:
+        if c.func.value.id != obj_name:
+            continue
+        what = ex.term(c.args[0])
+        kind = 'local' if contains(what, '_.local_surrogates[_]') else (
+            'surrogate' if contains(what, '_.surrogate') else 'objective')
+        facts = []
+        for (tn, pol) in cfg_of(dp).guards_of(ctx.node(dp, _stmt_c19(c))):
+            if tn.kind != 'test':
+                continue
+            t = ex.raw(tn.ast)
+            p = pol
+            while t[0] == 'unary' and t[1] == 'not':
+                t, p = t[2], not p
+            items = list(t[2]) if t[0] == 'bool' and t[1] == 'and' and p else [t]
+            for it in items:
+                q = p
+                while it[0] == 'unary' and it[1] == 'not':
+                    it, q = it[2], not q
+                if it[0] == 'name':
+                    facts.append((it[1], q))
+        chooser[kind] = facts
+    if set(chooser) != {'local', 'surrogate', 'objective'}:
+        ctx.undecided('the three choices of distance function were not found: {}'.format(
+            sorted(chooser)))
+    names = set(n for fs in chooser.values() for (n, _) in fs)
+    ok_choice = len(names) == 2 and \
+        all((n, False) in chooser['objective'] for n in names) and \
+        any(q for (_, q) in chooser['local']) and any(q for (_, q) in chooser['surrogate'])
+    ctx.check(ok_choice, dp, 'distance functions chosen by two flags',
+              'local models | global surrogate | true objective',
+              'the distance functions are not chosen by the (local, surrogate) flags', fn=dp,
+              node=apps[0] if apps else dp.node)
+    # surrogate_used = flag_1 or flag_2 of exactly those flags (compared as expanded values, so
+    # an inlined or hoisted disjunction is the same thing)
+    flag_terms = set()
+    for n in own_nodes(dp.node):
+        if isinstance(n, ast.If):
+            for m in ast.walk(n.test):
+                if isinstance(m, ast.Name) and m.id in names:
+                    flag_terms.add(ex.term(m))
+    v = ex.term(a_flag)
+    okf = v[0] == 'bool' and v[1] == 'or' and len(v[2]) == 2 and set(v[2]) == flag_terms and \
+        len(flag_terms) == 2
+    ctx.check(okf, dp, 'surrogate_used = (local flag or surrogate flag)',
+              'any_surrogate_used = (use_local or use_surrogate)',
+              '`surrogate_used` handed to the posterior is `{}` - not the disjunction of the two '
+              'flags that choose the distance functions'.format(show(v)[:90]), fn=dp,
+              node=rp[0])
+    # the constructor stores it unchanged (the dispatch itself is C19-c)
+    exi = ctx.ex(rinit)
+    st = [x for (x, t, k) in ctx.stores(rinit, 'self.surrogate_used') if isinstance(x, ast.Assign)]
+    ok = len(st) == 1 and exi.term(st[0].value) == ('param', 'surrogate_used')
+    ctx.check(ok, rinit, 'flag stored unchanged', 'self.surrogate_used = surrogate_used',
+              'RomcPosterior does not store the surrogate_used flag it was given', fn=rinit,
+              node=st[0] if st else rinit.node)
+
+
+def _stmt_c19(node):
+    n = node
+    while n is not None and not isinstance(n, ast.stmt):
+        n = getattr(n, '_parent', None)
+    return n
